@@ -12,6 +12,7 @@ import (
 	"fmt"
 	"hash/fnv"
 	"sort"
+	"strings"
 	"sync"
 	"time"
 
@@ -194,7 +195,9 @@ func (c06) Run(c *wk.Case) {
 		arg := bridge.ToReal(ref.NewList(items...), bridge.Variant{LazyLists: lazyArg})
 		got := evalReal(f, []value.Value{arg})
 		v, why := bridge.CompareOutcome(wv, we, false, got)
-		if v == bridge.Disagree && o.FailAt >= 0 && we == nil && got.Err != nil && c.Config != "cpu1" {
+		// (the failure shows as an error, or - where the terminal is wrapped in "try ... catch -1" - as the value -1)
+		failed := got.Err != nil || (strings.Contains(src, "catch -1") && got.Val != nil && bridge.Describe(got.Val) == "-1")
+		if v == bridge.Disagree && o.FailAt >= 0 && we == nil && failed && c.Config != "cpu1" {
 			// The failing element lies behind the point where a stage of the pipeline (top, merge end...) stops
 			// reading: sequentially it is never evaluated. A stage in front of it that has switched to workers
 			// reads ahead, so the failure may surface - the property leaves that open.
